@@ -3,3 +3,4 @@ import Verif.Properties.C07
 #print axioms C07.depthFirst_perm
 #print axioms C07.topmostFirst_perm
 #print axioms C07.depthFirst_perm_of_input
+#print axioms C07.gatherOperations_order_independent
